@@ -287,8 +287,7 @@ func (w *World) NewPod(s PodSpec) *v1.Pod {
 	if w.podSeq == nil {
 		w.podSeq = map[int]int{}
 	}
-	w.podSeq[s.Group]++
-	p := &v1.Pod{ObjectMeta: metav1.ObjectMeta{Name: fmt.Sprintf("p%d-%04d", s.Group, w.podSeq[s.Group]), Namespace: "ns", Annotations: map[string]string{}}}
+	p := &v1.Pod{ObjectMeta: metav1.ObjectMeta{Namespace: "ns", Annotations: map[string]string{}}}
 	split := s.Split
 	if split < 1 {
 		split = 1
@@ -355,6 +354,15 @@ func (w *World) NewPod(s PodSpec) *v1.Pod {
 	}
 	if s.Static {
 		p.Annotations[ref.StaticSource] = "file"
+	}
+	// the name sequence follows the group the pod is attributed to (not the group it was drawn
+	// for), so that adding pods to one group never renames another group's pods
+	ag := w.podGroup(p)
+	w.podSeq[ag]++
+	if ag < 0 {
+		p.Name = fmt.Sprintf("px-%04d", w.podSeq[ag])
+	} else {
+		p.Name = fmt.Sprintf("p%d-%04d", ag, w.podSeq[ag])
 	}
 	p.Spec.NodeName = s.Node
 	switch {
